@@ -92,6 +92,10 @@ def check_run(sc):
                     # a uniform closed system has no flux at all: the homogenization model cannot derive a time step from it (max of an empty array) - outside the admissible domain
                     out.label("uniform_closed_homogenization_skipped")
                     return out
+                # the profile the run starts from lies inside the documented range as well (the shift away from 0 and 1 is part of setup)
+                x0_ = state["after_setup"]
+                if np.any(x0_ < minC) or np.any(x0_ > 1 - minC) or not np.all(np.isfinite(x0_)):
+                    out.fail("composition_out_of_range", "after setup: composition outside [minComposition, 1-minComposition] (min %r max %r)" % (float(np.nanmin(x0_)), float(np.nanmax(x0_))), where="setup")
                 # requested composition boundary values are honoured up to the documented shift
                 for i, e in enumerate(els):
                     bc = sc["bc"][e]
@@ -132,7 +136,9 @@ def check_run(sc):
 def _profile(draw, hi):
     steps = []
     n = draw(st.integers(1, 3))
-    v = lambda: draw(st.floats(0.02, hi))
+    # (1 in 8) a value at the dilute end of the documented range: 0, the minimum composition, the layer just above it through
+    # which setup shifts the profile, or the first value not affected by the floor
+    v = lambda: draw(st.floats(0.02, hi)) if draw(st.integers(0, 7)) else draw(st.sampled_from([0.0, 1e-8, 1.5e-8, 2.5e-8, 3e-8, 4e-8, 4.000000001e-8, 1e-7, 1e-6]))
     for _ in range(n):
         k = draw(st.sampled_from(["linear", "step", "single", "bounded", "function", "data"]))
         if k == "linear":
@@ -174,7 +180,7 @@ def _scenario(draw, cap=150):
             if t == FLUX:
                 b += [FLUX, draw(st.sampled_from([0.0, 0.0, 1.0, -1.0])) * 10 ** draw(st.floats(-14, -9))]
             else:
-                b += [COMP, draw(st.floats(0.02, hi))]
+                b += [COMP, draw(st.floats(0.02, hi)) if draw(st.integers(0, 7)) else draw(st.sampled_from([1e-8, 2.5e-8, 4e-8, 1e-7]))]
         bc[e] = b
     T0 = draw(st.floats(600, 1400))
     tk = draw(st.sampled_from(["const", "const", "array", "field"]))
